@@ -26,6 +26,7 @@ RULE = (
     "select_variables(S) for every subset S of the data variables (all subsets up to 8 variables, else "
     "sizes 0,1,2,n-1,n) leaves polygons, geometry variables, depth and time coordinates identical.  "
     "Non-trivial: meshes with >= 1 optional table, 1-based, plain-variable coordinates, reloaded masks."
+    ' Also: meshes with int8 / int16 connectivity on more than 99 / 9999 nodes (fill value clamping), and after every clip a point lookup, select and flatten on the clipped dataset (clip-then-select).'
 )
 LEVEL_TEXT = ("every clip output of the C08 product plus all 16 connectivity subsets x index base x fill representation, "
               "saved and reopened; polygons mapped cell by cell; connectivity compared with the filtered and renumbered "
